@@ -21,7 +21,9 @@ through gaddlemaps' own parsers; `Alignment(start, end).align_molecules(...)` is
     `init_exchange_map` on the SAME Alignment object — bytes / map table against `GMModel.Comparative`, and the
     clauses about them (records, purity, round trip, map of the current stored molecules) on the real objects.
 """
+import json
 import os
+import sys
 
 import numpy as np
 from ..common import quiet as _quiet
@@ -224,6 +226,15 @@ def generate(ctx):
         if c["deform"] is None:
             c["deform"] = [0, 1]
         yield c
+
+    # the same files, the same numpy seed, in FRESH interpreters that differ only in the string-hash salt
+    # (PYTHONHASHSEED): the outcome must be bit-identical (seed C06-11: the bonded sections of the .itp walked in the
+    # iteration order of a set of strings; the neighbour order of an atom whose neighbours' indexes collide modulo 8
+    # then depends on the salt).  The mobile molecule is a tree of >= 10 atoms whose links are spread over
+    # [ bonds ] / [ constraints ] / [ pairs ] (all three are connections for MoleculeTop), one atom having two
+    # neighbours 8 apart in numbering that come from different sections.
+    for i in range(ctx.n(5, 40)):
+        yield _hashsalt_case(rng)
 
 
 RESNAMES = ["ALA", "GLY", "SER", "LYS", "TRP", "W", "PO4", "ASP"]
@@ -517,6 +528,8 @@ def evaluate(ctx, case):
     ctx.extra["correspondence_notes"] = NOTES
     if case["kind"] == "session":
         return _eval_session(ctx, case)
+    if case["kind"] == "hashsalt":
+        return _eval_hashsalt(ctx, case)
     if case["kind"] == "shipped":
         start, end = shipped(case["pair"], case["swap"])
     else:
@@ -784,6 +797,133 @@ def evaluate(ctx, case):
                 mcwrap.disagree(ctx, case, "align_run (early return): final coordinates", {"start": s1["pos"], "end": e1["pos"]},
                              {"start": ms, "end": me})
         ctx.model.ask("align_run_g", f"{sf} {fbits(ali.SIGMA_SCALE)} {common_toks} 0 0 0", cb_early, case)
+
+
+SECTIONS = ("bonds", "constraints", "pairs")
+
+HASH_CHILD = r"""
+import contextlib, hashlib, io, json, sys, warnings
+warnings.simplefilter('ignore')
+import numpy as np
+np.seterr(all='ignore')
+from gaddlemaps import Alignment
+from gaddlemaps.components import Molecule
+a = json.load(open(sys.argv[1]))
+try:
+    start = Molecule.from_files(*a['start'])
+    end = Molecule.from_files(*a['end'])
+    ali = Alignment(start, end)
+    ali.STEPS_FACTOR = a['steps_factor']
+    np.random.seed(a['seed'])
+    with contextlib.redirect_stdout(io.StringIO()):
+        ali.align_molecules(restrictions=[tuple(r) for r in a['restr']], deformation_types=tuple(a['deform']),
+                            ignore_hydrogens=a['ignore_h'])
+    h = hashlib.sha256()
+    for m in (ali.start, ali.end):
+        h.update(np.ascontiguousarray(np.array(m.atoms_positions, dtype=float)).tobytes())
+    out = {'ok': h.hexdigest(), 'draw': repr(float(np.random.rand()))}
+except Exception as e:
+    out = {'err': type(e).__name__ + ':' + str(e)[:120]}
+print(json.dumps(out))
+"""
+
+
+def _hashsalt_case(rng):
+    nm = rng.randint(10, 14)
+    u = rng.randrange(0, nm - 8)
+    v = u + 8
+    hub = rng.choice([x for x in range(nm) if x not in (u, v)])
+    s1, s2 = rng.sample(SECTIONS, 2)
+    edges = [[hub, u, s1], [hub, v, s2]]
+    done = [hub, u, v]
+    rest = [x for x in range(nm) if x not in done]
+    rng.shuffle(rest)
+    for x in rest:
+        edges.append([rng.choice(done), x, rng.choice(SECTIONS)])
+        done.append(x)
+    rng.shuffle(edges)
+    pos = {hub: [rng.uniform(0.5, 1.5) for _ in range(3)]}
+    todo = edges[:]
+    while todo:
+        for e in list(todo):
+            a, b = e[0], e[1]
+            if a in pos and b not in pos or b in pos and a not in pos:
+                src, dst = (a, b) if a in pos else (b, a)
+                pos[dst] = [pos[src][j] + rng.uniform(-0.35, 0.35) for j in range(3)]
+                todo.remove(e)
+            elif a in pos and b in pos:
+                todo.remove(e)
+    small = {"res": "SML", "names": [rng.choice(HEAVY) for _ in range(nm)], "pos": [pos[k] for k in range(nm)],
+             "bonds": [[a, b] for a, b, _ in edges], "sections": [sec for _, _, sec in edges],
+             "section_order": rng.sample(SECTIONS, 3)}
+    big = _mol(rng, rng.randint(nm + 1, 20), "BIG", 1.5, 0.2)
+    if all(n in HNAMES for n in big["names"]):
+        big["names"][0] = "C1"
+    big["sections"] = [rng.choice(SECTIONS) for _ in big["bonds"]]
+    big["section_order"] = rng.sample(SECTIONS, 3)
+    swap = rng.random() < 0.5
+    return {"kind": "hashsalt", "start": small if swap else big, "end": big if swap else small, "restr": [],
+            "deform": list(rng.choice([(2,), (0, 2), (1, 2), (0, 1, 2)])), "ignore_h": rng.random() < 0.5,
+            "steps_factor": rng.choice([2, 3, 5]), "seed": rng.randrange(2 ** 31),
+            "cls": "hash-salt:" + ("mobile-start" if swap else "mobile-end")}
+
+
+def _write_split(d, tag, mol):
+    """like `_write`, the links spread over the three bonded sections the topology reader takes connections from"""
+    gro, itp = _write(d, tag, mol)
+    text = open(itp).read()
+    head = text[:text.index("[ bonds ]")]
+    body = ""
+    for sec in mol["section_order"]:
+        rows = [(a, b) for (a, b), s in zip(mol["bonds"], mol["sections"]) if s == sec]
+        if not rows:
+            continue
+        body += "[ %s ]\n" % sec
+        for a, b in rows:
+            body += {"bonds": "%5d %5d 1 0.1 1000\n", "constraints": "%5d %5d 1 0.1\n",
+                     "pairs": "%5d %5d 1\n"}[sec] % (a + 1, b + 1)
+        body += "\n"
+    with open(itp, "w") as f:
+        f.write(head + body)
+    return gro, itp
+
+
+def _eval_hashsalt(ctx, case):
+    import subprocess
+    from concurrent.futures import ThreadPoolExecutor
+    _uid[0] += 1
+    d = ctx.scratch
+    arg = {"start": _write_split(d, f"hs{_uid[0]}s", case["start"]), "end": _write_split(d, f"hs{_uid[0]}e", case["end"]),
+           "steps_factor": int(case["steps_factor"]), "seed": int(case["seed"]), "restr": case["restr"],
+           "deform": case["deform"], "ignore_h": bool(case["ignore_h"])}
+    argfile = os.path.join(d, f"hs{_uid[0]}.json")
+    with open(argfile, "w") as f:
+        json.dump(arg, f)
+    salts = [0, 1, 2, 3, 4, 5, 6, 7] if ctx.quick() else list(range(16))
+
+    def run(k):
+        env = dict(os.environ)
+        env["PYTHONHASHSEED"] = str(k)
+        p = subprocess.run([sys.executable, "-c", HASH_CHILD, argfile], capture_output=True, text=True, env=env,
+                           timeout=600)
+        try:
+            return json.loads(p.stdout.strip().splitlines()[-1])
+        except Exception:   # noqa: BLE001
+            return {"err": "subprocess:" + p.stderr[-300:]}
+
+    with ThreadPoolExecutor(max_workers=min(len(salts), os.cpu_count() or 4)) as ex:
+        outs = list(ex.map(run, salts))
+    ctx.count("class:" + case["cls"])
+    ctx.count("hash-salt:interpreter-runs", len(outs))
+    ctx.case(case, nontrivial=all("ok" in o for o in outs))
+    ctx.oracle_ok(1)
+    distinct = sorted({json.dumps(o, sort_keys=True) for o in outs})
+    if any("err" in o for o in outs):
+        ctx.count("hash-salt:error-in-a-run")
+        ctx.oracle_fail("align:hash-salt-run-raises", case, {"outcomes": distinct[:4]})
+    elif len(distinct) > 1:
+        ctx.oracle_fail("align:not-deterministic-across-interpreter-runs(PYTHONHASHSEED)", case,
+                        {"salts": salts, "distinct_outcomes": len(distinct), "outcomes": distinct[:4]})
 
 
 def _layout_tokens(m):
